@@ -52,6 +52,7 @@ class LockRun:
         self.waitq: list[int] = []          # tasks blocked in acquire(), in the order they started waiting
         self.cancel_req: set[int] = set()   # waiting tasks for which cancel was requested
         self.flags = set()
+        self.ended: set[int] = set()
 
     def __enter__(self):
         self._sess = self.world.session()
@@ -75,8 +76,12 @@ class LockRun:
     def enabled(self):
         en = []
         for t, p in self.world.puppets.items():
+            if t in self.ended:
+                continue
             if p.at_decision:
                 en += [(0, t), (1, t), (2, t)]
+                if len(self.ended) < len(self.world.puppets) - 2:
+                    en.append((6, t))
             else:
                 if self.world.runnable(p):
                     en.append((3, t))
@@ -110,6 +115,17 @@ class LockRun:
             async def cmd(p):
                 lock.release()
             out = w.act(t, cmd)
+        elif c == 6:
+            # the task's coroutine ends (possibly while holding the lock): nothing about the lock may change, and
+            # nobody else may release on its behalf afterwards.  No model op: the model has no notion of task end.
+            p = w.puppets[t]
+            p.cmdfut.set_result(None)
+            w._run_task_handle(p)
+            self.ended.add(t)
+            self.flags.add("holder_ended" if t in self.holders else "task_ended")
+            if self.observe() != before:
+                self.mon.append(f"the end of task {t} changed the lock state {before} -> {self.observe()}")
+            return
         elif c == 3:
             out = w.resume(t)
         elif c == 5:
@@ -195,6 +211,8 @@ class LockRun:
         for _ in range(200):
             progressed = False
             for t, p in self.world.puppets.items():
+                if t in self.ended:
+                    continue
                 if not p.at_decision:
                     if self.world.runnable(p):
                         self.do(3, t)
@@ -204,12 +222,12 @@ class LockRun:
                         self.do(2, t)
                         progressed = True
             if not progressed:
-                blocked = [t for t, p in self.world.puppets.items() if not p.at_decision]
+                blocked = [t for t, p in self.world.puppets.items() if not p.at_decision and t not in self.ended]
                 if not blocked:
                     break
                 self.do(4, blocked[0])
         obs = self.observe()
-        if obs != [0, 0, 0]:
+        if obs != [0, 0, 0] and not (self.holders & self.ended):
             self.mon.append(f"not pristine after everyone released: locked/owner/waiters={obs}")
         if self.world.loop.errors:
             self.mon.append(f"loop errors: {self.world.loop.errors[:2]}")
@@ -228,10 +246,12 @@ def run_script(fast: bool, ntasks: int, flat_ops: list[int], quiesce=True):
 def random_case(rng: random.Random, nsteps: int):
     fast = rng.random() < 0.35
     ntasks = rng.choice([2, 3, 3, 4, 5])
-    weights = {0: 5, 1: 1.2, 2: 3, 3: 5, 4: rng.choice([0.5, 2, 4]), 5: rng.choice([0.5, 2, 3])}
+    weights = {0: 5, 1: 1.2, 2: 3, 3: 5, 4: rng.choice([0.5, 2, 4]), 5: rng.choice([0.5, 2, 3]), 6: rng.choice([0, 0.15, 0.4])}
     with LockRun(fast, ntasks) as r:
         for _ in range(nsteps):
             en = r.enabled()
+            if not en:
+                break
             # bias: release only makes sense mostly for holders; keep some misuse
             ws = []
             for (c, t) in en:
